@@ -735,6 +735,28 @@ fn c04_create_file_only_in_old() { create_case(true, false); }
 #[kani::stub(core::slice::memchr::memrchr, naive_memrchr)]
 #[kani::stub(std::path::Path::_strip_prefix, naive_strip_prefix)]
 fn c04_create_file_in_both() { create_case(true, true); }
+/// the new tree is an empty directory: the only file of the old tree is deleted by the patch
+#[kani::proof]
+#[kani::unwind(70)]
+#[kani::stub(core::str::validations::run_utf8_validation, ascii_utf8_validation)]
+#[kani::stub(core::slice::memchr::memchr_aligned, naive_memchr)]
+#[kani::stub(core::slice::memchr::memrchr, naive_memrchr)]
+#[kani::stub(std::path::Path::_strip_prefix, naive_strip_prefix)]
+fn c04_create_new_tree_empty() {
+    memfs::reset();
+    let old: [u8; 3] = kani::any();
+    memfs::add_file("/a/x", &old);
+    memfs::create_dir_all("/b").unwrap();
+    let mutations = memfs::mutation_count();
+    let patch = ZiPatch::create("/a", "/b").expect("a patch is produced");
+    assert_eq!(memfs::mutation_count(), mutations);
+    let mut c = Cursor::new(&patch[..]);
+    PatchHeader::read(&mut c).expect("patch header");
+    match next_file_op(&mut c) { Some((b'D', _)) => {}, _ => panic!("the file of the old tree must be deleted") }
+    assert!(next_file_op(&mut c).is_none());
+    kani::cover!(true);
+    core::mem::forget(patch);
+}
 
 // ---- zz probes (temporary) ----
 fn zz_spin(n: usize) { let mut k = 0; while k < n { k += 1; } }
